@@ -14,10 +14,10 @@ theorem natCast_add_length (pre mid : Bytes) :
   simp [List.length_append]
 
 /-- loop collecting one value per item (`repeatR`) -/
-theorem repeatR_encAll {α β : Type} (c : Codec α) (f : α → β) (data : Bytes) (body : Int → R (β × Int))
-    (hbody : ∀ (pre rest : Bytes) (a : α), c.valid a = true → data = pre ++ c.enc a ++ rest →
+theorem repeatR_encAll {α β : Type} (c : Codec α) (P : α → Prop) (f : α → β) (data : Bytes) (body : Int → R (β × Int))
+    (hbody : ∀ (pre rest : Bytes) (a : α), P a → data = pre ++ c.enc a ++ rest →
       body pre.length = .ok (f a, (pre.length : Int) + ((c.enc a).length : Int))) :
-    ∀ (l : List α) (pre rest : Bytes), (∀ a ∈ l, c.valid a = true) → data = pre ++ encAll c l ++ rest →
+    ∀ (l : List α) (pre rest : Bytes), (∀ a ∈ l, P a) → data = pre ++ encAll c l ++ rest →
       repeatR body l.length pre.length = .ok (l.map f, (pre.length : Int) + ((encAll c l).length : Int)) := by
   intro l
   induction l with
@@ -26,8 +26,8 @@ theorem repeatR_encAll {α β : Type} (c : Codec α) (f : α → β) (data : Byt
     simp [repeatR, encAll]
   | cons a as ih =>
     intro pre rest hv hd
-    have ha : c.valid a = true := hv a List.mem_cons_self
-    have has : ∀ x ∈ as, c.valid x = true := fun x hx => hv x (List.mem_cons_of_mem _ hx)
+    have ha : P a := hv a List.mem_cons_self
+    have has : ∀ x ∈ as, P x := fun x hx => hv x (List.mem_cons_of_mem _ hx)
     have hd1 : data = pre ++ c.enc a ++ (encAll c as ++ rest) := by
       rw [hd]; simp only [encAll, List.append_assoc]
     have hd2 : data = (pre ++ c.enc a) ++ encAll c as ++ rest := by
@@ -41,10 +41,10 @@ theorem repeatR_encAll {α β : Type} (c : Codec α) (f : α → β) (data : Byt
     omega
 
 /-- loop inside a generator (`repeatG`): every item contributes the values it yields -/
-theorem repeatG_encAll {α β : Type} (c : Codec α) (f : α → List β) (data : Bytes) (body : Int → G β)
-    (hbody : ∀ (pre rest : Bytes) (a : α), c.valid a = true → data = pre ++ c.enc a ++ rest →
+theorem repeatG_encAll {α β : Type} (c : Codec α) (P : α → Prop) (f : α → List β) (data : Bytes) (body : Int → G β)
+    (hbody : ∀ (pre rest : Bytes) (a : α), P a → data = pre ++ c.enc a ++ rest →
       body pre.length = (f a, .ok ((pre.length : Int) + ((c.enc a).length : Int)))) :
-    ∀ (l : List α) (pre rest : Bytes), (∀ a ∈ l, c.valid a = true) → data = pre ++ encAll c l ++ rest →
+    ∀ (l : List α) (pre rest : Bytes), (∀ a ∈ l, P a) → data = pre ++ encAll c l ++ rest →
       repeatG body l.length pre.length = (l.flatMap f, .ok ((pre.length : Int) + ((encAll c l).length : Int))) := by
   intro l
   induction l with
@@ -53,8 +53,8 @@ theorem repeatG_encAll {α β : Type} (c : Codec α) (f : α → List β) (data 
     simp [repeatG, encAll]
   | cons a as ih =>
     intro pre rest hv hd
-    have ha : c.valid a = true := hv a List.mem_cons_self
-    have has : ∀ x ∈ as, c.valid x = true := fun x hx => hv x (List.mem_cons_of_mem _ hx)
+    have ha : P a := hv a List.mem_cons_self
+    have has : ∀ x ∈ as, P x := fun x hx => hv x (List.mem_cons_of_mem _ hx)
     have hd1 : data = pre ++ c.enc a ++ (encAll c as ++ rest) := by
       rw [hd]; simp only [encAll, List.append_assoc]
     have hd2 : data = (pre ++ c.enc a) ++ encAll c as ++ rest := by
